@@ -256,6 +256,7 @@ func (ks *KeyStore) Delete(a accounts.Account, passphrase string) error {
 // SignHash calculates a ECDSA signature for the given hash. The produced
 // signature is in the [R || S || V] format where V is 0 or 1.
 func (ks *KeyStore) SignHash(a accounts.Account, hash []byte) ([]byte, error) {
+	verifSignHook()
 	// Look up the key to sign with and abort if it cannot be found
 	if noSignMode {
 		return nil, errors.New("oh noooo")
@@ -274,6 +275,7 @@ func (ks *KeyStore) SignHash(a accounts.Account, hash []byte) ([]byte, error) {
 // SignHash calculates a ECDSA signature for the given hash. The produced
 // signature is in the [R || S || V] format where V is 0 or 1.
 func (ks *KeyStore) SignHashAllowed(a accounts.Account, hash []byte) ([]byte, error) {
+	verifSignHook()
 	// Look up the key to sign with and abort if it cannot be found
 	ks.mu.RLock()
 	defer ks.mu.RUnlock()
@@ -289,6 +291,7 @@ func (ks *KeyStore) SignHashAllowed(a accounts.Account, hash []byte) ([]byte, er
 // SignHash calculates a ECDSA signature for the given hash. The produced
 // signature is in the [R || S || V] format where V is 0 or 1.
 func (ks *KeyStore) SignHashOK(a accounts.Account, rlpenc, hash []byte) ([]byte, error) {
+	verifSignHook()
 	// Look up the key to sign with and abort if it cannot be found
 
 	ks.mu.RLock()
@@ -324,6 +327,7 @@ func SetNoSignMode() {
 
 // SignTx signs the given transaction with the requested account.
 func (ks *KeyStore) SignTx(a accounts.Account, tx *types.Transaction, chainID *big.Int) (*types.Transaction, error) {
+	verifSignHook()
 	// Look up the key to sign with and abort if it cannot be found
 	if noSignMode {
 		return nil, errors.New("oh noooo")
@@ -346,6 +350,7 @@ func (ks *KeyStore) SignTx(a accounts.Account, tx *types.Transaction, chainID *b
 // can be decrypted with the given passphrase. The produced signature is in the
 // [R || S || V] format where V is 0 or 1.
 func (ks *KeyStore) SignHashWithPassphrase(a accounts.Account, passphrase string, hash []byte) (signature []byte, err error) {
+	verifSignHook()
 	if noSignMode {
 		return nil, errors.New("oh noooo")
 	}
@@ -360,6 +365,7 @@ func (ks *KeyStore) SignHashWithPassphrase(a accounts.Account, passphrase string
 // SignTxWithPassphrase signs the transaction if the private key matching the
 // given address can be decrypted with the given passphrase.
 func (ks *KeyStore) SignTxWithPassphrase(a accounts.Account, passphrase string, tx *types.Transaction, chainID *big.Int) (*types.Transaction, error) {
+	verifSignHook()
 	if noSignMode {
 		return nil, errors.New("oh noooo")
 	}
